@@ -92,6 +92,14 @@ def compare_tables(rep, run, select=lambda cid: True, what=("gen", "states", "ro
         r, m = run.real[cid], run.model.get(cid)
         n += 1
         for w in what:
+            if w == "first":
+                # nullable / FIRST sets read out of the real state_analyzer's cbitsets vs LRGen.nterm_empty / nterm_first (only when both generated a table)
+                if m is None or r["gen"] != "ok" or m["gen"] != "ok": continue
+                if r.get("first") != m.get("first"):
+                    rep.tie_broken(f"correspondence H1/first-sets: the nullable / FIRST sets of the real state_analyzer and of the mirror differ on case {cid} ({run.meta[cid]['name']}, carrier {run.meta[cid]['carrier']}): real {str(r.get('first'))[:200]} model {str(m.get('first'))[:200]}")
+                    rep.notes.setdefault("mismatch_cases", []).append(cid)
+                    break
+                continue
             if m is None or r[w] != m[w]:
                 rep.tie_broken(f"correspondence H1/{w}: real and model differ on case {cid} ({run.meta[cid]['name']}, carrier {run.meta[cid]['carrier']})")
                 rep.notes.setdefault("mismatch_cases", []).append(cid)
@@ -173,7 +181,7 @@ def check_C01(rep):
     run = h1_stage(rep)
     if run is None: return rep
     # correspondence: generator observables + accept/reject verdicts
-    ncases = compare_tables(rep, run, select=lambda cid: "CONFLICT" not in run.real[cid]["diag"])
+    ncases = compare_tables(rep, run, select=lambda cid: "CONFLICT" not in run.real[cid]["diag"], what=("gen", "first", "states", "rows"))
     nin = 0
     for cid, r in run.real.items():
         m = run.model_rt.get(cid)
